@@ -371,3 +371,25 @@ func VerifPeekTLVs(c *Conversation, m ValidMessage) (plain []byte, ts []VerifTLV
 	}
 	return p.message, ts, true
 }
+
+// VerifKeyMaterial exposes the DH key window of a conversation (copies).
+type VerifKeyMaterial struct {
+	OurKeyID, TheirKeyID               uint32
+	OurCurrentPriv, OurPreviousPriv   []byte
+	OurCurrentPub, OurPreviousPub     *big.Int
+	TheirCurrentPub, TheirPreviousPub *big.Int
+}
+
+// VerifKeys returns copies of the DH values in the key-management context.
+func VerifKeys(c *Conversation) VerifKeyMaterial {
+	cp := func(x *big.Int) *big.Int {
+		if x == nil {
+			return nil
+		}
+		return new(big.Int).Set(x)
+	}
+	return VerifKeyMaterial{OurKeyID: c.keys.ourKeyID, TheirKeyID: c.keys.theirKeyID,
+		OurCurrentPriv: makeCopy(c.keys.ourCurrentDHKeys.priv), OurPreviousPriv: makeCopy(c.keys.ourPreviousDHKeys.priv),
+		OurCurrentPub: cp(c.keys.ourCurrentDHKeys.pub), OurPreviousPub: cp(c.keys.ourPreviousDHKeys.pub),
+		TheirCurrentPub: cp(c.keys.theirCurrentDHPubKey), TheirPreviousPub: cp(c.keys.theirPreviousDHPubKey)}
+}
